@@ -142,6 +142,7 @@ STRENGTHENED = """
 | C10-i (version update given up after 1 s) | the hostname service of the manifest scenario answered at once, so a validation never took time | in 30 % of the Layer-1 runs the hostname service answers only when the schedule says so; version updates, closes and clock steps fall into the wait (this also uncovered S16) |
 | C14-j (service subscribes after the start-up queries) | every history began with an empty cluster | a quarter of the histories of both layers start the cluster service over workloads that are already running: the cluster's and the node's answers are parked calls; in Layer 2 leases close and updates arrive while the service is still waiting for them (in Layer 1 such an event races with the new managers' first `select` and broke the determinism self-test) |
 | C07-j (pooled auditor index handed back dirty) | as a determinism fault it depends on when the collector empties the pool; as an admission fault it needs all-of requirements over several auditors and partly attested providers, which were rare | C08 worlds have 1-3 auditors and sign requirements twice as often: caught by C08 as inadmissible-bid-accepted within the first hundred runs (C07 itself reaches it only rarely) |
+| C09-k (verification variables shared by all handshakes; round 7) | no two handshakes ever overlapped | new operation: one client's handshake waits 3 s of bubble time for a truthful chain answer while another client completes a handshake and a request; each is judged by itself (the other seven changes of round 7 - C04-k, C08-k, C12-k, C13-k, C14-k, C16-k, C20-k - were caught at once) |
 | not reached: C07-i (data race with a concurrent Simulate goroutine: real threads inside the application are outside the simulator), C16-j (needs a failing bank refund, which no chain history produces) | | |
 | C20-a (wait on Done()) / C10-b (updates dropped during fetch) | deployment-closed rarely hit an in-flight fetch; fetch answers were always computed at completion time; no submission of the previous version | close is 4x more likely while a fetch is in flight; 40 % of fetch answers reflect the state at issue time; new submission kind "previous-version" |
 """
